@@ -543,8 +543,12 @@ def check_reregistered_individuals(h: Harness, tmp: str):
         rng.shuffle(order)
         desc = f"CSV log under the real multi-objective tracker, fitness function returns one reused list; presentation order {order}"
         try:
-            for j in order:
-                tracker.evaluate([inds[j]])
+            for step_, j in enumerate(order):
+                # (every other registration goes through `evaluate_single`, the entry point Population uses for each member of each generation)
+                if (step_ + trial) % 2:
+                    tracker.evaluate_single(inds[j])
+                else:
+                    tracker.evaluate([inds[j]])
             recorder.csv_file.flush()
         except Exception as e:  # noqa: BLE001
             h.fail("CSVSearchRecorder.register", "raises", f"{desc}: {type(e).__name__}: {e}", [trial])
